@@ -1671,7 +1671,6 @@ def read_index(file, name, index, tindex, stop=b'\377' * 8,
 
         if tid <= ltid:
             logger.warning("%s time-stamp reduction at %s", name, pos)
-        ltid = tid
 
         if pos + (tl + 8) > file_size or status == 'c':
             # Hm, the data were truncated or the checkpoint flag wasn't
@@ -1714,6 +1713,10 @@ def read_index(file, name, index, tindex, stop=b'\377' * 8,
 
         if tid >= stop:
             break
+
+        # Only now is this a transaction that is part of the database; a
+        # torn or still check-pointed tail was cut off above.
+        ltid = tid
 
         tpos = pos
         tend = tpos + tl
